@@ -427,6 +427,12 @@ func (f *Face) glyphExtentsRaw(glyph GID) (GlyphExtents, bool) {
 	}
 	out, ok = f.getExtentsFromGlyf(gID(glyph))
 	if ok {
+		if out == (GlyphExtents{}) {
+			// color bitmap fonts may ship blank outlines : as [GlyphData] does, prefer the bitmap
+			if fromBitmap, ok := f.getExtentsFromBitmap(gID(glyph), f.xPpem, f.yPpem); ok {
+				return fromBitmap, true
+			}
+		}
 		return out, ok
 	}
 	out, ok = f.getExtentsFromCff1(gID(glyph))
